@@ -197,31 +197,35 @@ def argsForAssignments (c : Ctx) (b : Builder) (rep : Option (String × String))
       let argName := "arg" ++ toString i
       let t := lastTy a.path
       let direct : Builder.Path := inputRoot b ++ a.path
+      -- inside a repeated mapping an array assignment reads the loop variable (one element)
+      let inLoop : Option (String × String) := match rep with
+        | some r => if t.isArray then some r else none
+        | none => none
+      let valueTy : Ty := if inLoop.isSome then GB.elemTy t else t
+      let valuePath : Builder.Path := match inLoop with
+        | some (repeatAs, _) => [rootItem repeatAs (GB.elemTy t)]
+        | none => direct
       let here : List ArgMap × List Guard :=
-        match rep with
-        | some (repeatAs, repeatIndex) =>
-          if t.isArray then
-            let e := GB.elemTy t
-            ([argumentForType c 8 argName [rootItem repeatAs e] e], [])
-          else if a.method = "index" then
+        match rep, inLoop with
+        | some (repeatAs, repeatIndex), none =>
+          if a.method = "index" then
             match indexArgTy a.path with
             | some it =>
               ([argumentForType c 8 repeatIndex [rootItem repeatIndex t] it,
                 argumentForType c 8 argName [rootItem repeatAs t] t], [])
             | none => ([.unsup "index without argument"], [])
-          else
-            ([.unsup "repeated mapping of a non-collection"], [])
-        | none =>
+          else ([.unsup "repeated mapping of a non-collection"], [])
+        | _, _ =>
           if fromDisjunctionStruct c a then
             match envelopeOf a.value with
             | some (_, ev0 :: evs) =>
-              ([argumentForType c 8 argName (direct ++ ev0.path) (lastTy ev0.path)],
-               (ev0 :: evs).map fun ev => Guard.notNil (direct ++ ev.path))
+              ([argumentForType c 8 argName (valuePath ++ ev0.path) (lastTy ev0.path)],
+               (ev0 :: evs).map fun ev => Guard.notNil (valuePath ++ ev.path))
             | _ => ([.unsup "empty envelope"], [])
           else
             match envelopeOf a.value with
-            | some (_, vals) => (vals.map fun ev => argumentForType c 8 argName (direct ++ ev.path) (lastTy (direct ++ ev.path)), [])
-            | none => ([argumentForType c 8 argName direct t], [])
+            | some (_, vals) => (vals.map fun ev => argumentForType c 8 argName (valuePath ++ ev.path) (lastTy (valuePath ++ ev.path)), [])
+            | none => ([argumentForType c 8 argName valuePath valueTy], [])
       (here.1 ++ moreArgs, here.2 ++ moreGuards)
 
 /-- `mappingForOption` -/
